@@ -44,7 +44,7 @@ impl Tree {
 }
 
 pub fn grammar_path() -> String {
-    format!("{}/grammar.y", crate::infra::REPO_DIR)
+    format!("{}/grammar.y", crate::infra::repo_dir())
 }
 
 impl Grammar {
